@@ -40,7 +40,7 @@ var files = []string{"ast/node.go", "ast/encode.go", "ast/parser.go", "ast/api.g
 
 // plain (receiver-less) functions and Parser methods that are listed as well: only the
 // construction facts (newRawNode lock argument, lazy constructors, mutex allocation) matter there.
-var plainFuncs = map[string]bool{"NewRaw": true, "NewRawConcurrentRead": true, "newRawNode": true}
+var plainFuncs = map[string]bool{"NewRaw": true, "NewRawConcurrentRead": true, "newRawNode": true, "newObject": true, "newArray": true}
 var parserMethods = map[string]bool{"Parse": true, "decodeArray": true, "decodeObject": true}
 
 var fset = token.NewFileSet()
